@@ -33,8 +33,7 @@ ASSUMPTIONS = [
     "an iteration is abstracted to the number r >= 0 of rows of the criterion table it creates "
     "(ids are dense, property C01); theorems quantify over all sequences r",
     "Python int arithmetic = Z arithmetic",
-    "theorems about (table, N) criteria assume proper_table: the name is neither '__REPS__' nor '' "
-    "(the empty name is the refuted case K10)",
+    "theorems about (table, N) criteria assume proper_table: the name is not '__REPS__'",
 ]
 EXHAUSTIVE = {"quick": False, "thorough": True}
 
@@ -149,7 +148,7 @@ def gen_e2e(rng):
             elif u < 0.88:
                 crit = None
             else:
-                crit = [rng.choice(["Q", "t", "T ", "Tt"]), rng.randint(1, 3)]
+                crit = [rng.choice(["Q", "t", "T ", "Tt", ""]), rng.randint(1, 3)]
         form = rng.choice(["tuple", "swapped"]) if (api == "generate_data" and crit is not None) else "tuple"
         runs.append(_run(crit, _cap_for(crit), form))
     return {"kind": "e2e", "shape": shape, "seq": seq, "api": api, "runs": runs}
@@ -157,10 +156,10 @@ def gen_e2e(rng):
 
 def gen_e2e_fixed():
     out = []
-    # K7 in its natural habitat: the target table is created by a just_once template only
+    # former K7 in its natural habitat: the target table is created by a just_once template only
     out.append({"kind": "e2e", "shape": "just_once", "seq": [2], "api": "generate_data",
                 "runs": [_run(None, 3), _run([TABLE, 1], 4)]})
-    # K7 with a varying count
+    # former K7 with a varying count
     out.append({"kind": "e2e", "shape": "top", "seq": [2, 0, 1], "api": "generate",
                 "runs": [_run([COUNT_REPS, 1], 3), _run([TABLE, 2], 5)]})
     # relative counting after a continuation, exact boundary
@@ -175,14 +174,14 @@ def gen_e2e_fixed():
     # fresh no-progress
     out.append({"kind": "e2e", "shape": "top", "seq": [1, 0, 1], "api": "generate_data", "runs": [_run([TABLE, 3], 6)]})
     out.append({"kind": "e2e", "shape": "top", "seq": [0], "api": "generate", "runs": [_run([TABLE, 1], 4)]})
-    # K10: the empty table name
+    # former K10: the empty table name is an unknown table
     out.append({"kind": "e2e", "shape": "top", "seq": [1], "api": "generate", "runs": [_run(["", 1], 4)]})
     return out
 
 
 def generate(rng, tier):
     cases = gen_direct_boundaries()
-    cases.append(_direct(["", 1], None, [0, 0, 0]))          # K10 at the arithmetic level
+    cases.append(_direct(["", 1], None, [0, 0, 0]))          # former K10 at the arithmetic level
     if tier == "quick":
         pool = gen_direct_exhaustive()
         cases.extend(rng.sample(pool, 2200))
@@ -393,10 +392,7 @@ def parse_rows(rows):
 
 
 def _session_rs(case):
-    runs = case["runs"]
-    total = sum(r["cap"] for r in runs) + 2
-    if len(runs) == 1 and runs[0]["crit"] and runs[0]["crit"][0] == "":
-        return [0] * total          # rows of the table named "": there are none
+    total = sum(r["cap"] for r in case["runs"]) + 2
     return [rows_of_iteration(case, g) for g in range(total)]
 
 
@@ -428,8 +424,7 @@ def _judge_run(crit, counts, outcome, last0, continued, cap, where):
     """The property, evaluated on what one run did.
     counts = rows of the criterion table created by the complete iterations that were executed
     (for `exhausted`/`runaway`: the iterations the cap allowed).
-    Returns a list of (class, message); class 'first-continued-zero' and 'empty-name' are the
-    shapes of the known findings, everything else is 'other'."""
+    Returns a list of (class, message); no finding is open for C07, every class is 'other'."""
     out = []
     n = len(counts)
     if crit is None or crit[0] == COUNT_REPS:
@@ -447,8 +442,7 @@ def _judge_run(crit, counts, outcome, last0, continued, cap, where):
     sums = list(itertools.accumulate(counts))
     jstar = next((j + 1 for j, s in enumerate(sums) if s >= big_n), None)   # first boundary meeting N
     zero = next((j + 1 for j, c in enumerate(counts) if c == 0), None)      # first no-progress iteration
-    zcls = ("empty-name" if name == "" else
-            "first-continued-zero" if (continued and last0 > 0 and zero == 1) else "other")
+    zcls = "other"
     if outcome[0] == "stopped":
         if jstar is None or sums[n - 1] < big_n:
             out.append(("other", f"{where}: stopped after {n} iterations with only {sums[-1] if sums else 0} < {big_n} rows of {name} since the run started"))
@@ -495,15 +489,13 @@ def _violations(case, obs):
         counts, whole = parse_rows(ro["rows"])
         oc = ro["outcome"]
         known_tables = {"M", "T", "E", "P"}
-        if crit and crit[0] != COUNT_REPS and crit[0] != "" and crit[0] not in known_tables:
+        if crit and crit[0] != COUNT_REPS and crit[0] not in known_tables:
             if oc != "DGE" or ro["rows"]:
                 v.append(("other", f"{where}: target table {crit[0]!r} cannot be created by the recipe but the run "
                                    f"ended with {oc} after writing {len(ro['rows'])} rows"))
             break
         if not whole:
             v.append(("other", f"{where}: output is not a sequence of whole iterations: {ro['rows'][:60]}"))
-        if crit and crit[0] == "":
-            counts = [0] * len(counts)     # rows of the table named ""
         outcome = (["stopped", len(counts), 0] if oc == "ok" else
                    ["exhausted", len(counts)] if oc == "runaway" else ["failed", len(counts), oc])
         v.extend(_judge_run(crit, counts, outcome, total_t, i > 0, run["cap"], where))
@@ -525,12 +517,12 @@ def violation_class(case, obs, msg):
     return msg.split(":")[0] + ":" + case["kind"]
 
 
-FINDING_OF_CLASS = {"first-continued-zero": "K7", "empty-name": "K10"}
+FINDING_OF_CLASS = {}     # K7 and K10 were repaired in /repo (0afda32, d9d462f): nothing is suppressed
 
 
 def match_finding(case, obs, msg, findings):
     """A case is covered by an open finding only if EVERY violation it shows has that finding's
-    shape (continued run, last id > 0, first iteration creates no target row / empty table name)."""
+    shape.  No finding is open for C07, so this returns None for every case."""
     if msg == "model-disagreement":
         return None
     try:
